@@ -186,6 +186,55 @@ def counts_fixed(tier, q, t):
     return t if tier == "thorough" else q
 
 
+# small-scope grids for the exhaustive generator: every elevation field over {0, 1, 2} on them
+_SMALL_GRIDS = [
+    lambda: gen.Grid("profile", size=4, dx=1.0, borders=["v", "c"], cache=True, ov=[]),
+    lambda: gen.Grid("profile", size=5, dx=1.0, borders=["c", "c"], cache=False, ov=[(2, "v")]),
+    lambda: gen.Grid("raster", rows=2, cols=3, dy=1.0, dx=1.0, conn="queen", borders=["v", "c", "c", "c"], cache=True, ov=[]),
+    lambda: gen.Grid("raster", rows=2, cols=4, dy=1.0, dx=2.0, conn="rook", borders=["c", "c", "c", "c"], cache=False, ov=[(0, 0, "v")]),
+    lambda: gen.Grid("raster", rows=3, cols=3, dy=1.0, dx=1.0, conn="rook", borders=["c", "c", "c", "c"], cache=True, ov=[(0, 0, "v")]),
+    lambda: gen.Grid("raster", rows=3, cols=3, dy=1.0, dx=1.0, conn="queen", borders=["v", "c", "l", "l"], cache=False, ov=[]),
+    lambda: gen.Grid("raster", rows=3, cols=3, dy=2.0, dx=1.0, conn="bishop", borders=["v", "v", "c", "c"], cache=True, ov=[]),
+]
+
+
+def gen_small_scope(rng, tier, ops_fn, prefix="x", acc=False, basins=False, n_quick=120, n_thorough=6000):
+    """small-scope exhaustive part of the flow generators: ALL elevation fields over {0, 1, 2} on a
+    few tiny grids (ties, plateaus, flat-floored depressions and equal passes in every arrangement -
+    the inputs random floats never produce), each with an operator sequence drawn by `ops_fn`.
+    Thorough: the full product for the grids of up to 8 nodes and a large sample of the 3x3 ones;
+    quick: a sample."""
+    import itertools
+    grids = [mk() for mk in _SMALL_GRIDS]
+    space = []
+    for gi, g in enumerate(grids):
+        tot = 3 ** g.n
+        if tier == "thorough" and g.n <= 8:
+            idxs = range(tot)
+        else:
+            k = (n_thorough // 3) if tier == "thorough" else max(8, n_quick // len(grids))
+            idxs = rng.sample(range(tot), min(tot, k))
+        for ix in idxs:
+            space.append((gi, ix))
+    if tier != "thorough":
+        rng.shuffle(space)
+        space = space[:n_quick]
+    out = []
+    for k, (gi, ix) in enumerate(space):
+        g = grids[gi]
+        z = []
+        for _ in range(g.n):
+            z.append(float(ix % 3))
+            ix //= 3
+        lines = [g.line(), "graph " + " ".join(ops_fn(rng)), "update " + gen.hexes(z)]
+        if acc:
+            lines.append("acc s " + hx(1.0))
+        if basins and not any(o.startswith("multi") for o in lines[1].split()[1:]):
+            lines.append("basins")
+        out.append(("%s%d" % (prefix, k), lines))
+    return out
+
+
 def gen_resolved(rng, tier):
     out = []
     N = counts(tier, 260, 2500)
@@ -193,6 +242,7 @@ def gen_resolved(rng, tier):
         g = gen.any_grid(rng, small=(tier == "quick"))
         ops = gen.resolver_ops(rng)
         out.append(("r%d" % k, _flow_scn(rng, g, ops, n_updates=rng.randint(1, 2))))
+    out += gen_small_scope(rng, tier, gen.resolver_ops, "xr")
     return out
 
 
@@ -202,6 +252,7 @@ def gen_single(rng, tier):
         g = gen.any_grid(rng, small=(tier == "quick"))
         ops = rng.choice([["single"], ["single"], ["pflood", "single"], ["single:%d" % rng.choice([2, 3, 4])]])
         out.append(("s%d" % k, _flow_scn(rng, g, ops, n_updates=rng.randint(1, 2))))
+    out += gen_small_scope(rng, tier, lambda r: r.choice([["single"], ["single:%d" % r.choice([2, 3])], ["pflood", "single"]]), "xs", n_quick=80, n_thorough=3000)
     return out
 
 
@@ -218,6 +269,7 @@ def gen_multi(rng, tier):
             lines.append("set_param %d %s" % (len(ops) - 1, hx(rng.choice([0.0, 0.7, 1.0, 3.0]))))
             lines.append("update " + gen.hexes(gen.elevation(rng, g)))
         out.append(("m%d" % k, lines))
+    out += gen_small_scope(rng, tier, lambda r: r.choice([["multi:" + hx(r.choice([0.0, 1.0, 1.1, 2.0]))], ["pflood", "multi:" + hx(1.0)]]), "xm", n_quick=80, n_thorough=3000)
     return out
 
 
@@ -249,6 +301,8 @@ def gen_any_ops(rng, tier, acc=False, basins=False):
                         lines2.append("snapcall a basins")
             lines = lines2
         out.append(("a%d" % k, lines))
+    out += gen_small_scope(rng, tier, lambda r: gen.resolver_ops(r) if r.random() < 0.6 else r.choice([["single"], ["multi:" + hx(1.0)]]),
+                           "xa", acc=acc, basins=basins, n_quick=80, n_thorough=3000)
     return out
 
 
